@@ -44,7 +44,8 @@ MonStep(m, ev) ==
   IF ev.k = "parse" THEN
     [m EXCEPT !.bad = IF ev.ok THEN <<>> ELSE <<"C42.not_accepted", ev.fparse>>,
               !.ast = ev.ast, !.feval = ev.feval,
-              !.wit = @ \cup {"parse"} \cup (IF ev.ok THEN Shapes(ev.ast) \cup ToSet(ev.uses) ELSE {})]
+              !.wit = @ \cup {"parse"} \cup (IF ev.ok THEN Shapes(ev.ast) \cup ToSet(ev.uses) ELSE {})
+                        \cup (IF m.ast # <<>> THEN {"parsed_after_another"} ELSE {})]
   ELSE IF ev.k = "verdicts" THEN
     LET wrong == { r \in 1..Len(ev.got) : ev.got[r] # Eval(m.ast, ev.facts[r]) }
     IN [m EXCEPT !.bad = IF wrong = {} THEN <<>> ELSE <<"C42.verdict_differs", m.feval>>,
